@@ -205,3 +205,82 @@ func TestStorageLongSeries(t *testing.T) {
 		return r
 	})
 }
+
+// The sub-step controller at its floor.  A release curve whose time constant 1/slope lies between the
+// controller's floor (6 s) and the last sub-step above it (DeltaT/2^k in (6, 12], or a DeltaT that small): a
+// draw-down towards a much lower equilibrium then overdraws in the trial at that sub-step, is accepted at
+// exactly 6 s, and leaves a remainder of the time step that is not a power-of-two fraction of it.  Every
+// second of the step still has to be integrated: the per-step balance is checked over the full DeltaT.
+// (Slopes above 1/6 per second make the kernel panic by design and are outside the domain.)
+func genFloor(t *rapid.T) Case {
+	c := Case{A: simref.DrawCellCase(t, "Storage", 2, 10)}
+	desc := simref.New("Storage").Description()
+	maxR := c.A.Cell[simref.ParamIndex(desc, "maxRelease")]
+	minR := c.A.Cell[simref.ParamIndex(desc, "minRelease")]
+	vols := c.A.Cell[simref.ParamIndex(desc, "volumes")]
+	dem := c.A.Inputs[simref.InputIndex(desc, "demand")]
+	inf := c.A.Inputs[simref.InputIndex(desc, "inflow")]
+	pet := c.A.Inputs[simref.InputIndex(desc, "pet")]
+	dtv := rapid.SampledFrom([]float64{86400, 21600, 3600, 600, 150, 80, 20, 12, 11, 10, 9, 8, 7}).Draw(t, "floorDt")
+	c.A.Cell[simref.ParamIndex(desc, "DeltaT")][0] = dtv
+	// the last sub-step above the floor that halving reaches from this DeltaT
+	sub := dtv
+	for sub > 12 {
+		sub /= 2
+	}
+	lo := 1.02 / sub
+	if lo < 0.05 {
+		lo = 0.05
+	}
+	s := rapid.Float64Range(lo, 0.16).Draw(t, "floorSlope")
+	for i := range maxR {
+		maxR[i] = s * vols[i]
+		minR[i] = 0
+	}
+	top := vols[len(vols)-1]
+	for k := range dem {
+		dem[k] = 3 * maxR[len(maxR)-1]
+		// equilibrium volume inflow/s, anywhere over six decades below full supply: a step whose inflow falls by
+		// more than about five times starts far enough above its equilibrium to overdraw in the trial
+		inf[k] = s * top * math.Pow(10, -rapid.Float64Range(0.3, 6).Draw(t, "inflowDecades"))
+		pet[k] = 0 // evaporation from a store that the release has all but emptied is outside this class
+	}
+	c.A.State = simref.StateSpec{Direct: []float64{top * rapid.Float64Range(0.05, 1).Draw(t, "v0frac"), 0, 0}}
+	return c
+}
+
+func TestStorageStepFloor(t *testing.T) {
+	pbt.Run(t, genFloor, func(c Case) pbt.Result {
+		r := check(c)
+		r.Label("sub-step-floor-class")
+		// rule for "the controller was at its floor": at the start of some step the trial at the last sub-step
+		// above 6 s overdraws (then so does every longer one, the trial volume being linear in the sub-step)
+		desc := simref.New("Storage").Description()
+		dtv := c.A.Cell[simref.ParamIndex(desc, "DeltaT")][0]
+		vols := c.A.Cell[simref.ParamIndex(desc, "volumes")]
+		maxR := c.A.Cell[simref.ParamIndex(desc, "maxRelease")]
+		s := maxR[len(maxR)-1] / vols[len(vols)-1]
+		sub := dtv
+		for sub > 12 {
+			sub /= 2
+		}
+		if r.Fail != "" {
+			return r
+		}
+		out, _ := simref.Run1("Storage", c.A.Cell, c.A.Inputs, append([]float64(nil), c.A.State.Resolve("Storage", c.A.Cell)...))
+		V := out[simref.OutputIndex(desc, "volume")]
+		prev := c.A.State.Resolve("Storage", c.A.Cell)[0]
+		hit := false
+		for k, I := range c.A.Inputs[simref.InputIndex(desc, "inflow")] {
+			if sub > 6 && prev+(I-s*prev)*sub < 0 {
+				hit = true
+			}
+			prev = V[k]
+		}
+		if hit {
+			r.Label("sub-step-floor-reached")
+		}
+		r.NonTrivial = r.NonTrivial || hit
+		return r
+	})
+}
